@@ -17,10 +17,10 @@ METRICS_2D = METRICS_1D + ['gap8_latency']
 def profile(family, big=False):
     if family == '1d':
         return ng.Profile(family='1d', pads=('causal', 'causal', 'same', 'none'),
-                          standalone_bn=False, exclude=True, reuse=True, multi_input=True,
+                          standalone_bn=False, exclude=True, reuse=True, multi_input=True, fixtures=True,
                           max_blocks=6 if big else 4, kmax=12 if big else 9, min_blocks=2)
     return ng.Profile(family='2d', standalone_bn=False, exclude=True, reuse=True,
-                      multi_input=True, max_blocks=6 if big else 4, min_blocks=2, bridge=True,
+                      multi_input=True, fixtures=True, max_blocks=6 if big else 4, min_blocks=2, bridge=True,
                       pads=('causal', 'same', 'none'))
 
 
